@@ -103,3 +103,14 @@ pub fn site_name(site: usize) -> &'static str {
         _ => "?",
     }
 }
+
+/// Run `f` on a thread with std::thread's default stack size (2 MiB) instead of the 8 MiB main-thread stack: that is
+/// where a library user's decoder typically runs (any spawned thread, async worker threads), and it makes stack
+/// exhaustion four times more visible. A stack overflow there still kills the process (worker death, attributed
+/// through the progress marker); a harness panic is passed on.
+pub fn on_thread_stack<F: FnOnce(&mut crate::ctx::Ctx) + Send>(ctx: &mut crate::ctx::Ctx, f: F) {
+    let r = std::thread::scope(|s| std::thread::Builder::new().name("default-2MiB-stack".into()).stack_size(2 * 1024 * 1024).spawn_scoped(s, || f(ctx)).expect("spawn").join());
+    if let Err(e) = r {
+        std::panic::resume_unwind(e);
+    }
+}
